@@ -336,7 +336,7 @@ def func(fn, status, qual):
     try:
         if a.vararg or a.kwarg or a.kwonlyargs or a.posonlyargs:
             raise Unsupported("parameter kinds")
-        if any(d not in ("property", "abstractmethod") for d in decs):
+        if any(d not in ("property", "abstractmethod", "setter") for d in decs):
             raise Unsupported("decorator " + ",".join(decs))
         nd = len(a.defaults)
         params = []
@@ -350,6 +350,8 @@ def func(fn, status, qual):
         params = ["(%s, None)" % cstr(p.arg) for p in a.args]
         body = "(Scons (SRaise (EName %s)) Snil)" % cstr("$Unsupported: " + str(e))
         status[qual] = "unsupported: " + str(e)
+    if "setter" in decs:
+        return "(mkFunc %s %s false %s)" % (cstr(fn.name + "$setter"), clist(params), body)
     return "(mkFunc %s %s %s %s)" % (cstr(fn.name), clist(params),
                                      "true" if "property" in decs else "false", body)
 
@@ -421,8 +423,9 @@ def translate_module(rel, status):
                 if isinstance(s, ast.FunctionDef):
                     if "abstractmethod" in decorators(s):
                         continue
-                    dn = "%s_%s" % (node.name, s.name.replace("__", "D"))
-                    out.append("Definition %s : func := %s." % (dn, func(s, status, "%s:%s.%s" % (rel, node.name, s.name))))
+                    suffix = "_setter" if "setter" in decorators(s) else ""
+                    dn = "%s_%s%s" % (node.name, s.name.replace("__", "D"), suffix)
+                    out.append("Definition %s : func := %s." % (dn, func(s, status, "%s:%s.%s%s" % (rel, node.name, s.name, suffix))))
                     methods.append(dn)
                     mnames.append(s.name)
                 elif isinstance(s, ast.Assign) and len(s.targets) == 1 and isinstance(s.targets[0], ast.Name):
@@ -511,7 +514,7 @@ def translate_module(rel, status):
 
 
 MODULES = ["proto/iframe.py", "proto/serialframe.py", "dev.py", "proto/iparse.py", "proto/parse.py",
-           "proto/iparserecv.py", "proto/parserecv.py", "$prelude"]
+           "proto/iparserecv.py", "proto/parserecv.py", "intf/iintf.py", "$prelude"]
 
 
 def crc_table():
